@@ -630,7 +630,50 @@ except FileNotFoundError as e:
 print(json.dumps(out))
 ''',
 }
+INTERP['exception_group_subclass_with_derive'] = '''
+class MyGroup(ExceptionGroup):
+  def derive(self, excs):
+    return type(self)(self.message, excs)
+@gin.configurable
+def grp():
+  raise MyGroup('g', [ValueError(1), TypeError(2)])
+@gin.configurable
+def outer():
+  grp()
+seen = []
+for f in (grp, outer):
+  try:
+    try:
+      try:
+        f()
+      except* ValueError as eg:
+        seen.append(['ValueError', isinstance(eg, MyGroup), [type(x).__name__ for x in eg.exceptions]])
+    except* TypeError as eg:
+      seen.append(['TypeError', isinstance(eg, MyGroup), [type(x).__name__ for x in eg.exceptions]])
+  except BaseException as e:
+    seen.append(['escaped', type(e).__name__])
+print(json.dumps(seen))
+'''
+INTERP['typeerror_with_braces_in_caller_keywords'] = '''
+@gin.configurable
+def f2(a, b=2, **kw):
+  raise TypeError('boom')
+@gin.configurable
+def f3(a, b=2, **kw):
+  return a
+out = []
+for fn in (f2, f3):
+  for k in ('{oops}', '{}', '{0.__class__}', 'plain'):
+    try:
+      fn(**{k: 1})
+      out.append('no exception')
+    except Exception as e:
+      out.append(type(e).__name__)
+print(json.dumps(out))
+'''
 INTERP_WANT = {
+    'exception_group_subclass_with_derive': [['ValueError', True, ['ValueError']], ['TypeError', True, ['TypeError']]] * 2,
+    'typeerror_with_braces_in_caller_keywords': ['TypeError'] * 8,
     'stopiteration_yield_from': 42, 'stopiteration_nested_yield_from': 'v',
     'exception_group_except_star': [['ValueError', ['ValueError']], ['KeyError', ['KeyError']]],
     'syntaxerror_format': ['f.py', 3, 5, 'x = = 1', True, True],
